@@ -1085,6 +1085,15 @@ class CSA:
             s.facts[('symname', sid)] = a[0]
             s.facts[('symhow', sid)] = 'define'
             s.facts[('symctx', sid)] = s.ctx_depth
+            out_ty = getattr(self, 'symtab_define_output', '')
+            if 'Result<' in out_ty or 'Option<' in out_ty:
+                # the table can refuse a definition (it is full): nothing was defined on that path
+                s2 = s.clone()
+                s2.dirty = set(s.dirty)
+                s2.trace.append('define fails')
+                if 'Result<' in out_ty:
+                    return [(s, en, 'v', ('res', 'ok', ('sym', sid))), (s2, en, 'v', ('res', 'err', ('error', 'table full')))]
+                return [(s, en, 'v', ('opt', 'some', ('sym', sid))), (s2, en, 'v', ('opt', 'none'))]
             return V(('sym', sid))
         if meth == 'resolve' or meth in self.symtab_resolve:
             sid = self.fresh_sym()
@@ -1188,6 +1197,30 @@ class CSA:
                 raise Undecided('CSA: self.%s() is not a method of the compiler' % meth)
             if meth in self.recursive:
                 return self.apply_summary(meth, a, s, en)
+            recv = [i for i in self.methods[meth]['inputs'] if i.get('self')]
+            if recv and recv[0].get('ref') and not recv[0].get('mut'):
+                # a `&self` method cannot emit, patch or declare: when its body is beyond the interpreter (a hand-written scan
+                # of the finished code, say) its effect on the compiler is still known to be none, and its answer is unknown
+                s0 = s.clone()
+                d0 = self.depth
+                try:
+                    return self.inline(meth, a, s, en)
+                except Undecided:
+                    s = s0
+                    self.depth = d0
+                    out_ty = self.methods[meth]['output'] or ''
+                    s.trace.append('%s() (read-only, body not interpreted)' % meth)
+                    if 'Result' in out_ty:
+                        s2 = s.clone()
+                        s2.trace.append('%s fails' % meth)
+                        return [(s, en, 'v', ('res', 'ok', ('unk', meth))), (s2, en, 'v', ('res', 'err', ('error', meth)))]
+                    if 'Option' in out_ty:
+                        s2 = s.clone()
+                        return [(s, en, 'v', ('opt', 'some', ('unk', meth))), (s2, en, 'v', ('opt', 'none'))]
+                    if out_ty.strip() == 'bool':
+                        s2 = s.clone()
+                        return [(s, en, 'v', ('bool', True)), (s2, en, 'v', ('bool', False))]
+                    return V(('unk', meth))
             return self.inline(meth, a, s, en)
         return self.seq(args, st, env, cont)
 
